@@ -40,6 +40,20 @@ struct Inner {
     flushed_max: HashMap<String, u64>,
     delaying: HashSet<String>,
     overtaken: u64,
+    // hold mode: the first arrival at `point` whose fields match `filter` parks until released
+    hold: Option<Hold>,
+    jitter: Option<(u64, u64)>, // (xorshift state, max sleep in microseconds)
+}
+
+#[derive(Clone, Debug)]
+struct Hold {
+    point: String,
+    filter: Value,
+    state: u8, // 0 armed, 1 held, 2 released
+    nth: u64,  // park the nth matching arrival
+    seen: u64,
+    held_at: u64,
+    fields: Value,
 }
 
 pub struct Hub {
@@ -70,6 +84,7 @@ pub fn hub() -> Arc<Hub> {
 impl rip_kernel::verif::Sink for Hub {
     fn point(&self, name: &'static str, actor: u32, fields: Value) -> bool {
         let mut do_yield = false;
+        let mut jitter_us = 0u64;
         let fail;
         {
             let mut g = self.inner.lock().unwrap();
@@ -164,6 +179,51 @@ impl rip_kernel::verif::Sink for Hub {
                     }
                 }
             }
+            let mut park = false;
+            if let Some(h) = g.hold.as_mut() {
+                if h.state == 0 && h.point == name {
+                    let ok = h
+                        .filter
+                        .as_object()
+                        .map(|m| m.iter().all(|(k, v)| fields.get(k) == Some(v)))
+                        .unwrap_or(true);
+                    if ok {
+                        h.seen += 1;
+                    }
+                    if ok && h.seen == h.nth {
+                        h.state = 1;
+                        h.fields = fields.clone();
+                        park = true;
+                    }
+                }
+            }
+            if park {
+                let at = g.next_i;
+                if let Some(h) = g.hold.as_mut() {
+                    h.held_at = at;
+                }
+                self.cv.notify_all();
+                let deadline = Instant::now() + Duration::from_secs(15);
+                loop {
+                    if g.hold.as_ref().map(|h| h.state != 1).unwrap_or(true) {
+                        break;
+                    }
+                    let now = Instant::now();
+                    if now >= deadline {
+                        break;
+                    }
+                    let (ng, _) = self.cv.wait_timeout(g, deadline - now).unwrap();
+                    g = ng;
+                }
+            }
+            if let Some((st, max_us)) = g.jitter.as_mut() {
+                *st ^= *st << 13;
+                *st ^= *st >> 7;
+                *st ^= *st << 17;
+                if *max_us > 0 && *st % 3 != 0 {
+                    jitter_us = (*st >> 8) % *max_us;
+                }
+            }
             if g.gate_on && g.gate_points.contains(name) && g.gated_actors.contains(&a) {
                 g.arrived.insert(a, (name.to_string(), fields.clone()));
                 self.cv.notify_all();
@@ -185,6 +245,9 @@ impl rip_kernel::verif::Sink for Hub {
         }
         if do_yield {
             std::thread::yield_now();
+        }
+        if jitter_us > 0 {
+            std::thread::sleep(Duration::from_micros(jitter_us));
         }
         fail
     }
@@ -210,6 +273,42 @@ impl Hub {
         g.overtake = None;
         self.cv.notify_all();
         g.overtaken
+    }
+    pub fn set_jitter(&self, seed: Option<(u64, u64)>) {
+        self.inner.lock().unwrap().jitter = seed.map(|(s, m)| (s | 1, m));
+    }
+    pub fn arm_hold(&self, point: &str, filter: Value, nth: u64) {
+        let mut g = self.inner.lock().unwrap();
+        g.hold = Some(Hold { point: point.to_string(), filter, state: 0, held_at: 0, fields: Value::Null, nth: nth.max(1), seen: 0 });
+    }
+    /// Wait until the armed hold has caught an arrival; returns the trace index at that moment.
+    pub fn wait_held(&self, timeout: Duration) -> Option<(u64, Value)> {
+        let deadline = Instant::now() + timeout;
+        let mut g = self.inner.lock().unwrap();
+        loop {
+            if let Some(h) = g.hold.as_ref() {
+                if h.state == 1 {
+                    return Some((h.held_at, h.fields.clone()));
+                }
+            }
+            let now = Instant::now();
+            if now >= deadline {
+                return None;
+            }
+            let (ng, _) = self.cv.wait_timeout(g, deadline - now).unwrap();
+            g = ng;
+        }
+    }
+    pub fn release_hold(&self) -> u64 {
+        let mut g = self.inner.lock().unwrap();
+        if let Some(h) = g.hold.as_mut() {
+            h.state = 2;
+        }
+        self.cv.notify_all();
+        g.next_i
+    }
+    pub fn trace_len(&self) -> u64 {
+        self.inner.lock().unwrap().next_i
     }
     pub fn set_yield_seed(&self, seed: Option<u64>) {
         self.inner.lock().unwrap().yield_seed = seed.map(|s| s | 1);
